@@ -47,7 +47,7 @@ def run(shard, rec, tier, seed):
                 continue
             rec.count("trees-staged")
             if t.generator_reused:
-                rec.count("trees-generated-by-an-instance-that-read-an-earlier-revision")
+                rec.count("trees-generated-after-a-failed-run-on-a-broken-revision" if t.prior_failed else "trees-generated-by-an-instance-that-read-an-earlier-revision")
             run_tree(rec, tier, seed, ti, spec, t)
 
 
